@@ -348,8 +348,15 @@ impl GrammarBuilder {
                     ..Production::default()
                 };
 
-                // Inherit meta-data from Rule.
+                // Inherit meta-data from Rule. Associativity given on the
+                // production (left or right) takes precedence over both
+                // associativity keys of the rule.
+                let own_assoc = new_production.meta.contains_key("left")
+                    || new_production.meta.contains_key("right");
                 for (key, data) in &rule.meta {
+                    if own_assoc && (key == "left" || key == "right") {
+                        continue;
+                    }
                     if !new_production.meta.contains_key(key) {
                         new_production.meta.insert(key.clone(), data.clone());
                     }
